@@ -54,7 +54,9 @@ func runCmdWorld(w *simrt.World, orig func()) {
 	// a session world: earlier invocations in the same process (as an SDK user would make them),
 	// then the invocation under observation
 	var sess struct {
-		Prelude [][]string `json:"prelude"`
+		Prelude   [][]string `json:"prelude"`
+		PreludeWd []string   `json:"prelude_wd"` // per earlier invocation: "" = sdk.InvokeThriftgo, else sdk.RunThriftgoAsSDK(wd, ...)
+		SdkWd     string     `json:"sdk_wd"`     // not empty: the invocation under observation is sdk.RunThriftgoAsSDK(wd, nil, args...) instead of main()
 	}
 	if len(w.Spec.Driver) > 0 {
 		_ = json.Unmarshal(w.Spec.Driver, &sess)
@@ -70,12 +72,25 @@ func runCmdWorld(w *simrt.World, orig func()) {
 						simrt.Log("prelude.panic", fmt.Sprint(i))
 					}
 				}()
-				err := sdk.InvokeThriftgo(nil, args...)
+				var err error
+				if i < len(sess.PreludeWd) && sess.PreludeWd[i] != "" {
+					err = sdk.RunThriftgoAsSDK(sess.PreludeWd[i], nil, args[1:]...)
+				} else {
+					err = sdk.InvokeThriftgo(nil, args...)
+				}
 				simrt.Log("prelude.done", fmt.Sprintf("%d err=%v", i, err != nil))
 			}()
 		}
 		if len(sess.Prelude) > 0 {
 			simrt.Boundary("main")
+		}
+		if sess.SdkWd != "" {
+			// what cmd/thriftgo's main does with the error of the same call: message, exit 2
+			if err := sdk.RunThriftgoAsSDK(sess.SdkWd, nil, w.Spec.Args[1:]...); err != nil {
+				fmt.Fprintln(os.Stderr, err)
+				simrt.Exit(2)
+			}
+			return
 		}
 		orig()
 	})
